@@ -531,7 +531,12 @@ def heap_plan(case):
         outs = list(res) if isinstance(res, tuple) else [res]
         where = {id(o): p for p, o in container_paths(cur)}
         wire = [{'at': list(where[id(o)])} if isinstance(o, (dict, list, tuple)) and id(o) in where else enc(o) for o in outs]
-        steps.append({'keys': sp['keys'], 'outs': wire})
+        step = {'keys': sp['keys'], 'outs': wire}
+        if isinstance(res, tuple) and id(res) in where:
+          # the function returned a tuple VALUE of the record: the tuple of outputs IS that object (one key for several
+          # outputs stores the object itself)
+          step['outs_at'] = list(where[id(res)])
+        steps.append(step)
         cur = ref_route(cur, _norm_out(sp['keys']), res)
       reqs.append(dict(model='pipeheap', record=item, steps=steps))
   except (CallError, Routing, Undefined):
@@ -713,12 +718,34 @@ def ref_route(base, out_keys, result):
   return rec
 
 
+def ref_route_values(base, out_keys, values):
+  """An operator WITHOUT a function only routes: the value read under input key i is stored, AS IT IS, under output key
+  i; one output key for several input keys receives the tuple of the values.  No call, no packing convention: a value
+  that happens to be a tuple (of any length) is a value like any other."""
+  values = list(values)
+  if len(out_keys) == 1 and len(values) > 1:
+    if 'dk' in out_keys[0]:
+      raise Routing('a dict key cannot take a tuple of values')
+    values = [tuple(values)]
+  if len(out_keys) != len(values):
+    raise Routing(f'{len(values)} values for {len(out_keys)} keys')
+  rec = base
+  for k, v in zip(out_keys, values):
+    if 'dk' in k:
+      for name, inner in k['dk']:
+        rec = ref_set(rec, rk_json(name), ref_get(v, inner))
+    else:
+      rec = ref_set(rec, k, v)
+  return rec
+
+
 class RefOp:
   """One operator of the reference interpreter (per record)."""
 
   def __init__(self, spec, tracked):
     self.spec, self.op = spec, spec['op']
     self.log = []
+    self.fnless = False
     if self.op == 'batch':
       # `batch` works on the keys of the directly preceding select/apply, or on the whole record
       self.names, self.in_keys = None, (tracked if tracked else [{'self': 1}])
@@ -729,13 +756,17 @@ class RefOp:
       return
     self.names, self.in_keys = _norm_in(spec['in'])
     self.b, self.fb = spec.get('batch', 0), spec.get('fn_batch', 0)
+    # `fnless`: select, apply / assign without fn — nothing is called, the values are routed directly
+    # (`ref_route_values`); `self.fn` is None so that no path can go through a call + unpacking by accident
+    self.fnless = False
     if self.op == 'select':
       out = spec.get('out')
       self.out_keys = _norm_out(out) if out is not None and _norm_out(out) else self.in_keys
-      self.fn = lambda *a: tuple(a)
+      self.fn, self.fnless = None, True
     elif self.op in ('apply', 'assign'):
       self.out_keys = _norm_out(spec['out'] if self.op == 'apply' else spec['keys'])
-      self.fn = make_fn(spec['fn']) if spec.get('fn') is not None else (lambda *a: tuple(a))
+      self.fn = make_fn(spec['fn']) if spec.get('fn') is not None else None
+      self.fnless = spec.get('fn') is None
     else:
       self.out_keys = []
       self.fn = make_fn(spec['fn'])
@@ -751,6 +782,8 @@ class RefOp:
       self.log.append({'a': [] if self.names else [enc(x) for x in ins],
                        'k': {n: enc(x) for n, x in zip(self.names, ins)} if self.names else {}})
       return rec
+    if self.fnless:
+      return ref_route_values(rec if self.op == 'assign' else _NOTHING, self.out_keys, ins)
     res = ref_call(self.fn, self.names, ins)
     if self.op == 'filter':
       if isinstance(res, tuple):
@@ -791,21 +824,30 @@ def ref_batched(op, recs, skip=False, info=None):
       raise
     cols.append(c)
   if op.fb:
+    # re-grouping keeps the container type of a column (a column of tuple type stays a tuple: C19)
+    kinds_in = [type(cols[0][i]) for i in range(nin)] if cols else []
     rows = [tuple(c[i][j] for i in range(nin)) for c in cols for j in range(len(c[0]))] if nin else []
-    groups = [[list(col) for col in zip(*g)] for g in _chunks(rows, op.fb)]
+    groups = [[kinds_in[i](col) for i, col in enumerate(zip(*g))] for g in _chunks(rows, op.fb)]
   else:
     groups = cols
   results = []
-  for g in groups:
-    try:
-      results.append(ref_call(op.fn, op.names, g))
-    except CallError:
-      if not skip:
-        raise
-  outs = [list(r) if isinstance(r, tuple) else [r] for r in results]
+  if op.fnless:
+    # no function: the output columns ARE the input columns (no call, no unpacking of a result)
+    outs = [list(g) for g in groups]
+  else:
+    for g in groups:
+      try:
+        results.append(ref_call(op.fn, op.names, g))
+      except CallError:
+        if not skip:
+          raise
+    # a function that returns a tuple returns several outputs (one per output key), anything else is one output
+    outs = [list(r) if isinstance(r, tuple) else [r] for r in results]
   if op.out_keys and 'self' in op.out_keys[0] and any(len(o) > 1 for o in outs):
     raise Routing('columns cannot be re-batched into SELF')
   if not op.b:
+    if op.fnless:
+      return [ref_route_values(_NOTHING, op.out_keys, o) for o in outs]
     return [ref_route(_NOTHING, op.out_keys, r) for r in results]
   nout = len(op.out_keys)
   for o in outs:
@@ -816,7 +858,8 @@ def ref_batched(op, recs, skip=False, info=None):
   result = []
   for g in _chunks(rows, op.b):
     colsg = tuple(kinds[c](x[c] for x in g) for c in range(nout))
-    result.append(ref_route(_NOTHING, op.out_keys, colsg if nout != 1 else colsg[0] if not isinstance(colsg[0], tuple) else colsg))
+    # the value under output key c is column c of the regrouped rows (stored as it is: a tuple column is a value)
+    result.append(ref_route_values(_NOTHING, op.out_keys, list(colsg)))
   return result
 
 
